@@ -185,6 +185,15 @@ class Scope:
         self.parent = parent
         self.vars = vars if vars is not None else {}
         self.bound = bound            # scope of quantifier-bound variables (comprehension targets)
+        self.aliases = {}             # name -> path alias of a nested container (x = d[k]; x.append(v) writes through to d[k])
+
+    def find_alias(self, name):
+        s = self
+        while s is not None:
+            if name in s.vars:
+                return s.aliases.get(name)
+            s = s.parent
+        return None
 
     def lookup(self, name):
         s = self
@@ -235,12 +244,17 @@ class Contract:
 
 
 class LoopSpec:
-    def __init__(self, header, invariant, vars=None, ghost='done', kind=None):
+    def __init__(self, header, invariant, vars=None, ghost='done', kind=None, ghost_init=(), ghost_step=(), ghost_names=()):
         self.header = header          # normalised text of the loop header (fingerprint)
         self.invariant = list(invariant)
         self.vars = vars or {}        # types of the variables the loop writes (havoc)
         self.ghost = ghost
         self.kind = kind
+        # ghost code (Python statements as text): runs before the loop / at the end of every iteration; it may assign
+        # ghost_names only (checked), so it cannot influence the program
+        self.ghost_init = list(ghost_init)
+        self.ghost_step = list(ghost_step)
+        self.ghost_names = set(ghost_names)
 
 
 class Interp:
@@ -278,6 +292,10 @@ class Interp:
         v = fresh(typ, self.path.name(base))
         if v.typ.kind == 'Seq':
             self.path.assume(seq_len(v) >= 0)       # len() of a Python sequence is never negative
+        if v.typ.kind == 'Map' and v.typ.default:
+            # normal form of defaultdict-typed maps: missing keys carry the factory value
+            k = z3.Const('k!dm', zsort(v.typ.args[0]))
+            self.path.assume(z3.ForAll([k], z3.Implies(z3.Not(map_dom(v)[k]), map_val(v)[k] == self.world.lib.empty_of(self, v.typ.args[1]).t)))
         return v
 
     # ------------------------------------------------------------------ truthiness
@@ -310,8 +328,13 @@ class Interp:
                 return v.t != z3.K(zsort(v.typ.args[0]), z3.BoolVal(False))
             if k == 'Map':
                 return map_dom(v) != z3.K(zsort(v.typ.args[0]), z3.BoolVal(False))
-            if k in ('Ref', 'Enum'):
+            if k == 'Ref':
+                f = getattr(self.world, 'ref_truth', {}).get(v.typ.args[0])
+                return f(v.t) if f is not None else True
+            if k == 'Enum':
                 return True
+            if k == 'Tuple':
+                return len(v.typ.args) > 0
         if isinstance(v, SObj):
             model = self.world.class_model(v.cls)
             if model is not None and hasattr(model, 'm___bool__'):
@@ -368,6 +391,10 @@ class Interp:
                                  lift(b, typ).t if b is None else coerce(lift(b), typ).t))
         if isinstance(a, tuple) and isinstance(b, tuple) and len(a) == len(b):
             return tuple(self.merge(c, x, y) for x, y in zip(a, b))
+        if isinstance(a, SV) and a.typ.kind in ('Seq', 'Set') and isinstance(b, (tuple, list, set, frozenset)):
+            b = lift(b, a.typ)
+        if isinstance(b, SV) and b.typ.kind in ('Seq', 'Set') and isinstance(a, (tuple, list, set, frozenset)):
+            a = lift(a, b.typ)
         a2 = a if isinstance(a, SV) else lift(a)
         b2 = b if isinstance(b, SV) else lift(b)
         if a2.typ != b2.typ:
@@ -396,6 +423,9 @@ class Interp:
     def e_Name(self, node, scope):
         try:
             v = scope.lookup(node.id)
+            al = scope.find_alias(node.id)
+            if al is not None and al['stale']:
+                raise Undecided(f'{node.id} aliases {al["base_txt"]}[...] which was modified through another path')
             if type(v).__name__ == 'DeadAfterLoop':
                 raise Undecided(f'{node.id} is read after the loop that assigns it (value not tracked by the loop contract)')
             return v
@@ -524,6 +554,14 @@ class Interp:
     def e_Subscript(self, node, scope):
         recv = self.eval(node.value, scope)
         idx = self.eval(node.slice, scope)
+        if isinstance(recv, SV) and recv.typ.kind == 'Map' and recv.typ.default and not self.in_spec:
+            new, val = self.world.lib.dmap_get(self, recv, idx)
+            self.world.lib.write_back(self, node.value, new, scope)
+            return val
+        if isinstance(recv, SV) and recv.typ.kind == 'Map' and recv.typ.default and self.in_spec:
+            # specification reading of a defaultdict: the entry, or the empty value when missing (no insertion)
+            _, val = self.world.lib.dmap_get(self, recv, idx)
+            return val
         return self.world.lib.getitem(self, recv, idx)
 
     def e_Slice(self, node, scope):
@@ -878,6 +916,8 @@ class Interp:
         if isinstance(recv, SV) and recv.typ.kind == 'Opt':
             self.require(z3.Not(opt_is_none(recv)), 'AttributeError', 'None.' + name)
             return self.getattr(opt_get(recv), name)
+        if isinstance(recv, SV) and recv.typ.kind == 'Enum' and name == '__class__':
+            return self.world.globals[recv.typ.args[0]]
         if recv is None:
             self.raise_('AttributeError')
         a = self.world.lib.attr(self, recv, name)
@@ -1118,6 +1158,12 @@ class Interp:
         v = self.eval(st.value, scope)
         for tgt in st.targets:
             self.assign(tgt, v, scope)
+            if isinstance(tgt, ast.Name):
+                scope.aliases.pop(tgt.id, None)
+                if isinstance(st.value, ast.Subscript) and isinstance(v, SV) and v.typ.kind in ('Seq', 'Set', 'Map'):
+                    # path alias: the name denotes the container stored at base[key]; mutations write through
+                    key = self.eval(st.value.slice, scope)
+                    scope.aliases[tgt.id] = {'base': st.value.value, 'base_txt': ast.unparse(st.value.value), 'key': key, 'stale': False}
 
     def s_AnnAssign(self, st, scope):
         if st.value is not None:
@@ -1136,6 +1182,10 @@ class Interp:
         r = self.world.lib.inplace(self, st.op, cur, rhs)
         if r is NotImplemented:
             r = self.binop(st.op, cur, rhs)
+        if isinstance(cur, SV) and cur.typ.kind in ('Seq', 'Set', 'Map') and isinstance(st.target, (ast.Name, ast.Attribute, ast.Subscript)):
+            # += on a list, &= |= -= on a set ... mutate the object in place: every alias sees the change
+            self.world.lib.write_back(self, st.target, r, scope)
+            return
         self.assign(st.target, r, scope)
 
     def assign(self, tgt, v, scope):
